@@ -253,6 +253,9 @@ func hostileAbvs(v *spec.Version) []string {
 		for _, l := range lookalikes(a) {
 			add(l)
 		}
+		for _, l := range encodingTwins(a) {
+			add(l)
+		}
 		if len(a) > 1 {
 			add(a[:len(a)-1])
 			add(a[1:])
@@ -290,6 +293,9 @@ func hostileValues() []string {
 		for _, l := range lookalikes(a) {
 			add(l)
 		}
+		for _, l := range encodingTwins(a) {
+			add(l)
+		}
 		if len(a) > 1 {
 			add(a[:len(a)-1])
 			add(a[1:])
@@ -312,6 +318,64 @@ func hostileValues() []string {
 		out = append(out, s)
 	}
 	sortStrings(out)
+	return out
+}
+
+// encodingTwins returns strings that a dispatch keyed on a few packed bytes / runes, on a hash, or on a
+// trimmed / normalised form could confuse with a: control-byte and high-byte padding on either side,
+// single runes whose code point is the big- or little-endian packing of a's bytes, ASCII + rune mixtures
+// packing to the same integer, bytes with the high bit set, full-width and combining variants.
+func encodingTwins(a string) []string {
+	if a == "" {
+		return nil
+	}
+	var out []string
+	for _, pad := range []string{"\x00", "\x00\x00", "\x01", "\t", "\n", "\r", "\x7f", "\x80", "\xff", "\u00a0", "\u200b", "\ufeff"} {
+		out = append(out, pad+a, a+pad, pad+a+pad)
+	}
+	b := []byte(a)
+	if len(b) <= 3 {
+		be, le := rune(0), rune(0)
+		for i, c := range b {
+			be = be<<8 | rune(c)
+			le |= rune(c) << (8 * uint(i))
+		}
+		for _, r := range []rune{be, le} {
+			if r > 0x7f && r < 0x110000 && (r < 0xd800 || r > 0xdfff) {
+				out = append(out, string(r))
+			}
+		}
+		if len(b) >= 2 {
+			// first byte(s) kept, the rest folded into one rune (and the other way round)
+			tail := rune(0)
+			for _, c := range b[1:] {
+				tail = tail<<8 | rune(c)
+			}
+			out = append(out, string(rune(b[0]))+string(tail+0x100), string(rune(b[0]-1))+string(tail+0x100))
+			head := rune(0)
+			for _, c := range b[:len(b)-1] {
+				head = head<<8 | rune(c)
+			}
+			if head > 0x7f {
+				out = append(out, string(head)+string(rune(b[len(b)-1])))
+			}
+		}
+	}
+	for i := range b {
+		t := append([]byte{}, b...)
+		t[i] |= 0x80
+		out = append(out, string(t))
+	}
+	// full-width forms and a combining mark
+	fw := ""
+	for _, c := range a {
+		if c > 0x20 && c < 0x7f {
+			fw += string(c - 0x20 + 0xff00)
+		} else {
+			fw += string(c)
+		}
+	}
+	out = append(out, fw, a+"\u0301", strings.ToLower(a)+"\u0301")
 	return out
 }
 
